@@ -407,6 +407,16 @@ def run_oracles(prog, meta, sessions):
             elif f[0] == 'XE' and f[1] in open_:
                 open_.remove(f[1])
 
+        # ---- C17: every read / write that COMPLETED (returned Ok to the task: the task-side log has an 'op' line) emitted its end
+        # event (a start without end is legitimate only when stamping failed and the error was returned to the task)
+        from collections import Counter
+        ops_ok = Counter((e.split()[1], e.split()[2][1:]) for e in s.execlog if e.startswith('op R ') or e.startswith('op W '))
+        ends = Counter(('R' if e.startswith('rE ') else 'W', e.split()[1]) for e in s.events if e.startswith('rE ') or e.startswith('wE '))
+        for key, n in ops_ok.items():
+            if ends.get(key, 0) < n:
+                out.append(('C17', 'completed-without-end', '%s: %d %s of R%s completed (returned Ok to the task) but the tracker received only %d end event(s) for them' % (where, n, 'read(s)' if key[0] == 'R' else 'write(s)', key[1], ends.get(key, 0))))
+                break
+
         # ---- C17
         msg = P.nesting_check(s.events, ab)
         if msg:
